@@ -415,7 +415,7 @@ func runC08(c *core.Ctx, r *core.Result) {
 	// ---------- family 5: snapshot heights with / without rates, per 2.x era
 	for _, st := range []int{drive.StV20, drive.StV20Dev, drive.StV202, drive.StPIP10} {
 		era := drive.EraStage(st)
-		for _, ratesAt := range []string{"none", "prev-only", "at", "both"} {
+		for _, ratesAt := range []string{"none", "prev-only", "at", "both", "at/staking-records-put-eur-out-of-band", "at/staking-records-put-usd-out-of-band", "both/staking-records-put-eur-out-of-band"} {
 			for _, stakers := range []bool{false, true} {
 				key := fmt.Sprintf("%s/snapshot/rates=%s/stakers=%v", era.Name, ratesAt, stakers)
 				if !next() || !c.Want(key) {
@@ -518,6 +518,23 @@ func c08SemanticBatches(era drive.Era) []c08Batch {
 
 // c08Snapshot runs a chain through the first snapshot height (432) in a 2.x era.
 func c08Snapshot(era drive.Era, ratesAt string, stakers bool) drive.Outcome {
+	// variants: at the snapshot heights an asset the stakers hold has no usable price (the oracle and staking records
+	// disagree about it beyond the tolerance band; a record quoting 0 is not valid and leaves the block ungraded: rates=none)
+	variant := ""
+	if i := strings.IndexByte(ratesAt, '/'); i >= 0 {
+		ratesAt, variant = ratesAt[:i], ratesAt[i+1:]
+	}
+	at := func(b *drive.Builder, rt kit.Rates) drive.BlockSpec {
+		s := drive.BlockSpec{Rates: rt, OPRPayTo: kit.AddrStr(KM)}
+		h := b.Next()
+		switch variant {
+		case "staking-records-put-eur-out-of-band":
+			s.SPR = sprSet(era, h, rt.With("EUR", rt[kit.AssetIndex("EUR")]*5/2), AddrA[:], KA, 25)
+		case "staking-records-put-usd-out-of-band":
+			s.SPR = sprSet(era, h, rt.With("USD", rt[kit.AssetIndex("USD")]*5/2), AddrA[:], KA, 25)
+		}
+		return s
+	}
 	w, err := NewWorld(era, func(b *drive.Builder) {
 		if stakers {
 			FundStd(b)
@@ -533,7 +550,7 @@ func c08Snapshot(era drive.Era, ratesAt string, stakers bool) drive.Outcome {
 			b.AddEmpty(1)
 		}
 		if ratesAt == "at" || ratesAt == "both" {
-			b.Add(drive.BlockSpec{Rates: R1(), OPRPayTo: kit.AddrStr(KM)}) // 432
+			b.Add(at(b, R1())) // 432
 		} else {
 			b.AddEmpty(1)
 		}
@@ -543,7 +560,7 @@ func c08Snapshot(era drive.Era, ratesAt string, stakers bool) drive.Outcome {
 			b.AddEmpty(1)
 		}
 		if ratesAt == "at" || ratesAt == "both" {
-			b.Add(drive.BlockSpec{Rates: R2(), OPRPayTo: kit.AddrStr(KM)})
+			b.Add(at(b, R2()))
 		} else {
 			b.AddEmpty(1)
 		}
